@@ -16,7 +16,7 @@ From RU Require Import Base.Prelude Base.Utf8 Base.Utf8Facts Model.AsciiSet Gen.
   Proofs.C01_EqClasses Proofs.C01_EqAuthSpec Proofs.C01_EqAuthModel Proofs.C01_EqAuth Proofs.C01_EqClasses2
   Proofs.C01_EqRel Proofs.C01_EqRelPath Proofs.C01_EqRelArms Proofs.C01_EqRelBase
   Proofs.C01_EqSpSpec Proofs.C01_EqSpPath Proofs.C01_EqSpModel Proofs.C01_EqSp Proofs.C01_EqSpKnown
-  Proofs.C01_EqAbs Proofs.C01_EqSpBase Proofs.C01_EqAsm.
+  Proofs.C01_EqAbs Proofs.C01_EqSpBase Proofs.C01_EqAsm Proofs.C01_EqShape.
 
 (* ================= suffixes ================= *)
 Definition suffix_of (s t : list N) : Prop := exists pre, t = pre ++ s.
@@ -479,10 +479,9 @@ Proof.
 Qed.
 
 (* ================= every base, every reference ================= *)
-(* what is asked of a base record beyond good_base: a special non-file record is not opaque and has a host
-   (true of every parse result) *)
-Definition base_shape_ok (sb : spec_url) : bool :=
-  negb (is_special_scheme (su_scheme sb)) || list_eqb (su_scheme sb) str_file || sp_base_ok sb.
+(* what is asked of a base record beyond good_base: base_shape_ok (Proofs/C01_EqShape.v) - a special non-file
+   record is not opaque and has a host (true of every parse result, and of every result of the proved
+   classes: class3_result_full) *)
 
 Theorem base_covers dbg shs b sb input :
   good_base dbg shs b sb -> base_shape_ok sb = true -> same_scheme_bare sb input = false ->
@@ -568,6 +567,40 @@ Proof.
   exact (base_covers dbg shs b sb input Hb Hshape Hbare Hk).
 Qed.
 
+(* ---------- all of it: no base, or a full_base pair ---------- *)
+Definition full_rel (base : option url) (sbase : option spec_url) : Prop :=
+  match base, sbase with
+  | None, None => True
+  | Some b, Some sb => full_base dbg shs b sb
+  | _, _ => False
+  end.
+
+Definition not_bare (sbase : option spec_url) (input : list N) : Prop :=
+  match sbase with Some sb => same_scheme_bare sb input = false | None => True end.
+
+Theorem all_covers input base sbase : full_rel base sbase -> not_bare sbase input ->
+  known_c01 base input = 0 -> in_proved_class3 sbase input = true.
+Proof.
+  intros Hb Hbare Hk. destruct base as [b|]; destruct sbase as [sb|]; cbn [full_rel] in Hb; try contradiction.
+  - destruct Hb as [Hg Hs]. exact (base_covers dbg shs b sb input Hg Hs Hbare Hk).
+  - exact (nobase_covers input Hk).
+Qed.
+
+Theorem statement_all input base sbase : usv_list input ->
+  full_rel base sbase -> not_bare sbase input -> known_c01 base input = 0 ->
+  host_hyp3 hp hpo hd shp shs sbase input ->
+  agree_good dbg shs (parse_url dbg hp hpo hd None base input) (spec_basic_url_parse shp input sbase)
+  /\ (forall su u, spec_basic_url_parse shp input sbase = BDone su -> parse_url dbg hp hpo hd None base input = POk u ->
+        full_base dbg shs u su).
+Proof.
+  intros Hu Hb Hbare Hk HH. pose proof (all_covers input base sbase Hb Hbare Hk) as Hc.
+  assert (base_rel3 dbg shs base sbase) as Hb3.
+  { destruct base as [b|]; destruct sbase as [sb|]; cbn [full_rel] in Hb; try contradiction; [exact (proj1 Hb) | exact I]. }
+  pose proof (partial_equivalence_good3 dbg hp hpo hd shp shs input base sbase Hu Hb3 Hc HH) as A.
+  split; [exact A|]. intros su u HS Hm. rewrite HS in A.
+  exact (class3_result_full dbg shs shp input base sbase _ su u Hu Hb Hc HS A Hm).
+Qed.
+
 End Statements.
 
 (* the same for the parser model with the host model plugged in against the Standard's parser with the
@@ -624,5 +657,18 @@ Theorem statement_base_model dbg idna : IdnaOK idna -> forall b sb input,
     (spec_basic_url_parse (spec_host_parser idna) input (Some sb)).
 Proof.
   intros HI b sb input Hu Hb Hshape Hbare Hk. apply statement_base; try assumption.
+  apply host_hyp3_model; [exact (idna_out idna HI) | exact Hu].
+Qed.
+
+Theorem statement_all_model dbg idna : IdnaOK idna -> forall input base sbase,
+  usv_list input -> full_rel dbg spec_host_serializer base sbase -> not_bare sbase input -> known_c01 base input = 0 ->
+  agree_good dbg spec_host_serializer
+    (parse_url dbg (host_parse idna) host_parse_opaque host_display None base input)
+    (spec_basic_url_parse (spec_host_parser idna) input sbase)
+  /\ (forall su u, spec_basic_url_parse (spec_host_parser idna) input sbase = BDone su ->
+        parse_url dbg (host_parse idna) host_parse_opaque host_display None base input = POk u ->
+        full_base dbg spec_host_serializer u su).
+Proof.
+  intros HI input base sbase Hu Hb Hbare Hk. apply statement_all; try assumption.
   apply host_hyp3_model; [exact (idna_out idna HI) | exact Hu].
 Qed.
